@@ -21,6 +21,7 @@ import (
 	"github.com/opencontainers/go-digest"
 
 	"github.com/regclient/regclient"
+	"github.com/regclient/regclient/scheme"
 	"github.com/regclient/regclient/types/descriptor"
 	"github.com/regclient/regclient/types/manifest"
 	"github.com/regclient/regclient/types/mediatype"
@@ -68,7 +69,7 @@ var layoutRoot string
 
 // writeLayout stores the list as an OCI layout: tag -> index (flat) or tag -> outer index -> index (nested);
 // every entry is a small image manifest of its own. It returns the descriptors of the list entries.
-func writeLayout(dir, shape string, lst []int, host platform.Platform, plat func(t int) platform.Platform) []descriptor.Descriptor {
+func writeLayout(dir, shape string, lst []int, host platform.Platform, plat func(t int) platform.Platform) ([]descriptor.Descriptor, []digest.Digest, digest.Digest) {
 	put := func(b []byte) digest.Digest {
 		d := digest.FromBytes(b)
 		p := filepath.Join(dir, "blobs", d.Algorithm().String())
@@ -80,10 +81,13 @@ func writeLayout(dir, shape string, lst []int, host platform.Platform, plat func
 		}
 		return d
 	}
-	conf := []byte(`{"architecture":"amd64","os":"linux","rootfs":{"type":"layers","diff_ids":[]}}`)
-	cd := put(conf)
 	dl := make([]descriptor.Descriptor, len(lst))
+	cds := make([]digest.Digest, len(lst))
 	for i, t := range lst {
+		// every entry has a config of its own, so that entry points that answer with a config identify the entry
+		conf := []byte(fmt.Sprintf(`{"architecture":"amd64","os":"linux","config":{"Labels":{"entry":"%d-%d"}},"rootfs":{"type":"layers","diff_ids":[]}}`, i, t))
+		cd := put(conf)
+		cds[i] = cd
 		mb := []byte(fmt.Sprintf(`{"schemaVersion":2,"mediaType":%q,"config":{"mediaType":%q,"digest":%q,"size":%d},"layers":[],"annotations":{"entry":"%d-%d"}}`,
 			mediatype.OCI1Manifest, mediatype.OCI1ImageConfig, cd.String(), len(conf), i, t))
 		dl[i] = descriptor.Descriptor{MediaType: mediatype.OCI1Manifest, Size: int64(len(mb)), Digest: put(mb)}
@@ -107,7 +111,22 @@ func writeLayout(dir, shape string, lst []int, host platform.Platform, plat func
 		top = descriptor.Descriptor{MediaType: mediatype.OCI1ManifestList, Size: int64(len(outer)), Digest: put(outer)}
 	}
 	top.Annotations = map[string]string{"org.opencontainers.image.ref.name": "tag"}
-	ij, err := json.Marshal(v1.Index{Versioned: v1.IndexSchemaVersion, MediaType: mediatype.OCI1ManifestList, Manifests: []descriptor.Descriptor{top}})
+	roots := []descriptor.Descriptor{top}
+	// one referrer per entry, recorded under the fall-back tag of the entry (an OCI layout keeps referrers that way),
+	// so that a referrers query for a platform answers with a subject
+	for i := range dl {
+		ab := []byte(fmt.Sprintf(`{"schemaVersion":2,"mediaType":%q,"artifactType":"application/x.c16","config":{"mediaType":"application/vnd.oci.empty.v1+json","digest":"sha256:44136fa355b3678a1146ad16f7e8649e94fb4fc21fe77e8310c060f61caaff8a","size":2},"layers":[],"subject":{"mediaType":%q,"digest":%q,"size":%d}}`,
+			mediatype.OCI1Manifest, dl[i].MediaType, dl[i].Digest.String(), dl[i].Size))
+		ad := descriptor.Descriptor{MediaType: mediatype.OCI1Manifest, Size: int64(len(ab)), Digest: put(ab), ArtifactType: "application/x.c16"}
+		rb, err := json.Marshal(v1.Index{Versioned: v1.IndexSchemaVersion, MediaType: mediatype.OCI1ManifestList, Manifests: []descriptor.Descriptor{ad}})
+		if err != nil {
+			fail(err)
+		}
+		roots = append(roots, descriptor.Descriptor{MediaType: mediatype.OCI1ManifestList, Size: int64(len(rb)), Digest: put(rb),
+			Annotations: map[string]string{"org.opencontainers.image.ref.name": dl[i].Digest.Algorithm().String() + "-" + dl[i].Digest.Encoded()}})
+	}
+	put([]byte("{}"))
+	ij, err := json.Marshal(v1.Index{Versioned: v1.IndexSchemaVersion, MediaType: mediatype.OCI1ManifestList, Manifests: roots})
 	if err != nil {
 		fail(err)
 	}
@@ -117,7 +136,7 @@ func writeLayout(dir, shape string, lst []int, host platform.Platform, plat func
 	if err := os.WriteFile(filepath.Join(dir, "oci-layout"), []byte(`{"imageLayoutVersion":"1.0.0"}`), 0o644); err != nil {
 		fail(err)
 	}
-	return dl
+	return dl, cds, top.Digest
 }
 
 func main() {
@@ -398,42 +417,72 @@ func main() {
 			if k < 2 {
 				for _, shape := range []string{"flat", "nested"} {
 					dir := filepath.Join(layoutRoot, fmt.Sprintf("l-%d-%d-%s", hu.ID, k, shape))
-					dl := writeLayout(dir, shape, lst, h, func(t int) platform.Platform { return pick(rng, classes[keys[t-1]]).plat() })
-					r, err := ref.New("ocidir://" + dir + ":tag")
-					if err != nil {
-						fail(err)
-					}
+					dl, cds, topDig := writeLayout(dir, shape, lst, h, func(t int) platform.Platform { return pick(rng, classes[keys[t-1]]).plat() })
 					rc := regclient.New()
-					for _, api := range []string{"ManifestGet", "ManifestHead"} {
-						hh := h
-						var d descriptor.Descriptor
-						var derr error
-						if api == "ManifestGet" {
-							m, e := rc.ManifestGet(context.Background(), r, regclient.WithManifestPlatform(hh))
-							derr = e
-							if e == nil {
-								d = m.GetDescriptor()
-							}
-						} else {
-							m, e := rc.ManifestHead(context.Background(), r, regclient.WithManifestPlatform(hh))
-							derr = e
-							if e == nil {
-								d = m.GetDescriptor()
-							}
+					var r ref.Ref
+					// the image is named by tag, by the digest of the (outer) index, and by both
+					for _, form := range []string{"tag", "digest", "tagdigest"} {
+						name := "ocidir://" + dir
+						switch form {
+						case "tag":
+							name += ":tag"
+						case "digest":
+							name += "@" + topDig.String()
+						default:
+							name += ":tag@" + topDig.String()
 						}
-						res := 0
-						if derr == nil {
-							for i := range dl {
-								if dl[i].Digest == d.Digest {
-									res = i + 1
+						var err error
+						r, err = ref.New(name)
+						if err != nil {
+							fail(err)
+						}
+						for _, api := range []string{"ManifestGet", "ManifestHead", "ReferrerList", "ImageConfig"} {
+							hh := h
+							var got digest.Digest
+							var derr error
+							byConf := false
+							switch api {
+							case "ManifestGet":
+								m, e := rc.ManifestGet(context.Background(), r, regclient.WithManifestPlatform(hh))
+								derr = e
+								if e == nil {
+									got = m.GetDescriptor().Digest
+								}
+							case "ManifestHead":
+								m, e := rc.ManifestHead(context.Background(), r, regclient.WithManifestPlatform(hh))
+								derr = e
+								if e == nil {
+									got = m.GetDescriptor().Digest
+								}
+							case "ReferrerList":
+								// the referrers of the entry for the platform: the subject of the answer is the entry chosen
+								rl, e := rc.ReferrerList(context.Background(), r, scheme.WithReferrerPlatform(hu.spelling(false)))
+								derr = e
+								if e == nil {
+									got = digest.Digest(rl.Subject.Digest)
+								}
+							default:
+								bc, e := rc.ImageConfig(context.Background(), r, regclient.ImageWithPlatform(hu.spelling(false)))
+								derr = e
+								byConf = true
+								if e == nil {
+									got = bc.GetDescriptor().Digest
 								}
 							}
-							if res == 0 {
-								res = -1 // something that is not an entry of the list
+							res := 0
+							if derr == nil {
+								for i := range dl {
+									if (!byConf && dl[i].Digest == got) || (byConf && cds[i] == got) {
+										res = i + 1
+									}
+								}
+								if res == 0 {
+									res = -1 // something that is not an entry of the list
+								}
 							}
+							emit(map[string]any{"ev": "search", "api": api + "+platform/" + shape + "/" + form, "h": hu.ID, "hl": hl, "list": append([]int(nil), lst...), "res": res, "fpass": 1})
+							line++
 						}
-						emit(map[string]any{"ev": "search", "api": api + "+platform/" + shape, "h": hu.ID, "hl": hl, "list": append([]int(nil), lst...), "res": res, "fpass": 1})
-						line++
 					}
 					_ = rc.Close(context.Background(), r)
 					_ = os.RemoveAll(dir)
